@@ -195,6 +195,22 @@ Proof.
   reflexivity.
 Qed.
 
+(* layout_fits: everything the property file states about the layout, in one lemma *)
+Lemma layout_fits n dw al : 0 < dw -> 0 <= n -> 0 <= al ->
+  build_map n dw al = Ok (final_map n dw al) /\
+  MemoryMap.all_resources (final_map n dw al) = Ok [info_enable n dw al; info_pending n dw al] /\
+  MemoryMap.resources (final_map n dw al) =
+    [ (id_enable, [MemoryMap.PStr atom_enable], 0, span n dw al);
+      (id_pending, [MemoryMap.PStr atom_pending], span n dw al, span n dw al + span n dw al) ] /\
+  MemSpec.least_multiple_ge (2 ^ al) (Z.max (reg_size n dw) 1) (span n dw al) /\
+  2 * span n dw al <= 2 ^ addr_width n dw al /\
+  n <= span n dw al * dw.
+Proof.
+  intros Hd Hn Ha. destruct (span_spec n dw al Hd Hn Ha) as (H1 & H2 & H3 & H4 & H5).
+  pose proof (reg_size_holds n dw Hd Hn).
+  repeat split; auto using build_map_ok, all_resources_final, resources_final; try apply H5; nia.
+Qed.
+
 (* ------------------------------------------------------------------ the constructor *)
 
 Definition pn (p : params) : Z := Z.of_nat (length (p_modes p)).
